@@ -254,10 +254,11 @@ Fixpoint read_vals (fuel : nat) (cnt : Z) (acc : list Z) (n : N) : dec (list Z *
   end.
 
 (* palette.ReadFrom.  A size above the capacity allocates a slice of exactly that size; a negative
-   size reaches values[:size] and panics (C08's clause) *)
+   size is refused with an error (guard added by the fix: commit ca29854) *)
+Definition eNegPal : N := 5.
 Definition read_sized (fuel : nat) (cap : Z) (mk : list Z -> Z -> pal) : dec (pal * N) :=
   '(size, n) <- read32 ;;
-  if size <? 0 then Crash pRt
+  if size <? 0 then Fail eNegPal
   else '(vs, m) <- read_vals fuel size [] 0%N ;; Ret (mk vs (Z.max cap size), (n + m)%N).
 
 Definition pal_read (fuel : nat) (p : pal) : dec (pal * N) :=
